@@ -198,7 +198,8 @@ class C14(Prop):
                     op["j"] = None
             nreq[f] += 1
             ops.append(op)
-        return {"app": app, "iface": iface, "nfiles": nfiles, "frac": frac, "sizes": sizes, "zerocopy": zerocopy, "ops": ops}
+        return {"app": app, "iface": iface, "nfiles": nfiles, "frac": frac, "sizes": sizes, "zerocopy": zerocopy, "ops": ops,
+                "cacheability": t.choice(["public", "public", "private", "no-cache", "no-store"]), "max_age": t.choice([600, 0, 31536000])}
 
     def describe(self, plan, variant=None):
         return {"plan": jsonable(plan), "variant": jsonable(variant)}
@@ -208,6 +209,17 @@ class C14(Prop):
 
     # -- execute ---------------------------------------------------------------
     def execute(self, plan, ctx, variant=None):
+        # the process wall clock is the virtual one too: code that compares file times with "now" sees the simulated instant
+        import time as _time
+        fs = self.fs
+        real_time = _time.time
+        _time.time = lambda: fs.now
+        try:
+            self._execute(plan, ctx)
+        finally:
+            _time.time = real_time
+
+    def _execute(self, plan, ctx):
         fs = self.fs
         fs.reset()
         now = BASE_MS + plan["frac"]
@@ -226,7 +238,8 @@ class C14(Prop):
                 from baize.wsgi import Files, Pages
             else:
                 from baize.asgi import Files, Pages
-            apps[iface] = (Files if plan["app"] == "Files" else Pages)(fs.root)
+            # configuration must not matter for revalidation
+            apps[iface] = (Files if plan["app"] == "Files" else Pages)(fs.root, cacheability=plan.get("cacheability", "public"), max_age=plan.get("max_age", 600))
         ctx.sch("start", plan["app"], plan["iface"], now - BASE_MS, [f.size for f in files])
 
         entries = [[] for _ in files]      # per file: cache entry held after its k-th request (None = nothing held)
